@@ -18,7 +18,7 @@ RULE = ('cases: all 12 simulators x seeded random/boundary inputs, each run in b
 ASSUMPTIONS = ['premise of the statement (same draws in both modes) is checked on the recorded draw log; pairs failing it are counted and skipped']
 BUDGET = {'quick': 150, 'thorough': 1200}
 CHUNK = {'quick': 30, 'thorough': 150}
-REQUIRED = ['mode_pairs_compared', 'premise_same_draws', 'queries_checked', 'subset_summaries_checked', 'histories_checked'] + \
+REQUIRED = ['mode_pairs_compared', 'premise_same_draws', 'queries_checked', 'subset_summaries_checked', 'subset_form_iterator', 'subset_form_generator', 'histories_checked'] + \
            ['pairs:' + s for s in simreg.ALL_SIMS]
 
 
@@ -132,13 +132,19 @@ def run_case(case):
     if len(nodes) >= 2:
         sub = r.sample(nodes, r.randint(1, len(nodes) - 1))
         try:
-            s_t, s_D = full.summary(nodelist=sub)
+            # "the nodes that we want to focus on": any iterable of nodes, including one-shot ones (G.neighbors(u), a generator, filter())
+            form = r.choice(['list', 'tuple', 'set', 'iterator', 'generator', 'dictkeys', 'filter'])
+            arg = {'list': lambda: list(sub), 'tuple': lambda: tuple(sub), 'set': lambda: set(sub), 'iterator': lambda: iter(list(sub)),
+                   'generator': lambda: (x for x in sub), 'dictkeys': lambda: dict.fromkeys(sub).keys(),
+                   'filter': lambda: filter(lambda x: True, list(sub))}[form]()
+            bump(res, 'subset_form_' + form)
+            s_t, s_D = full.summary(nodelist=arg)
             it, iD = summary_from_histories(hist, sub, sts)
             bump(res, 'subset_summaries_checked')
             # rows of the evaluator at times where nothing of the subset changes are redundant: compare as step functions
             ok = list(s_t) == it and all([int(x) for x in s_D[s]] == iD[s] for s in sts)
             if not ok:
-                viol(res, '%s|subset_summary' % sim, {'subset': [repr(x) for x in sub][:5], 'summary_t': list(s_t)[:6], 'evaluator_t': it[:6]})
+                viol(res, '%s|subset_summary' % sim, {'subset_given_as': form, 'subset': [repr(x) for x in sub][:5], 'summary_t': list(s_t)[:6], 'evaluator_t': it[:6]})
         except Exception as e:
             viol(res, '%s|subset_summary|exception:%s' % (sim, simcase.exc_key(e)), {'err': repr(e)})
     # ---- P4 histories
